@@ -128,10 +128,28 @@ def run_unit(unit_name, tier, seed):
             m = re.search(r'cannot find (?:value|function|type) `(\w+)`', d.get('message', ''))
             if m:
                 idents.add(m.group(1))
-        if not idents:
-            break
         tid = threading.get_ident()
-        _ov.DROP[tid] = set(_ov.DROP.get(tid, ())) | idents
+        if not idents:
+            # syntax error: if it sits in (or right next to) a hint inserted by an overlay, drop that hint and retry
+            dropped = False
+            for d in res['diags']:
+                for sp in d.get('spans') or []:
+                    ln = sp.get('line_start', 0)
+                    for (a, b, fobj) in linemap:
+                        if not (a <= ln <= b) or not getattr(fobj, 'overlay_trace', None):
+                            continue
+                        rel = ln - a
+                        best = min(fobj.overlay_trace, key=lambda t: 0 if t[1] <= rel <= t[2] else min(abs(rel - t[1]), abs(rel - t[2])))
+                        if (0 if best[1] <= rel <= best[2] else min(abs(rel - best[1]), abs(rel - best[2]))) <= 3:
+                            key = (tid, fobj.overlay_name)
+                            if best[0] not in _ov.DROP_OPS.get(key, set()):
+                                _ov.DROP_OPS.setdefault(key, set()).add(best[0])
+                                dropped = True
+            if not dropped:
+                break
+            idents = {'<syntax error in a hint>'}
+        else:
+            _ov.DROP[tid] = set(_ov.DROP.get(tid, ())) | idents
         try:
             U = vlib.Unit(unit_name)
             mod.build(U)
@@ -146,6 +164,8 @@ def run_unit(unit_name, tier, seed):
         out['notes'].append('hints naming missing identifier(s) %s dropped' % sorted(idents))
         res = vlib.run_verus(path, rlimit=rlimit)
     _ov.DROP.pop(threading.get_ident(), None)
+    for _k in [k for k in _ov.DROP_OPS if k[0] == threading.get_ident()]:
+        _ov.DROP_OPS.pop(_k, None)
     out['checker_cmd'] = res['cmd']
     attempts = [res]
     if res['status'] == 'failed':
@@ -283,7 +303,11 @@ def decide(pid, tier, seed):
             for t in (v.get('at') or '').split(','):
                 cex_by_target[t.strip()] = v
     vio_lines = []
+    seen_v = set()
     for v in violations:
+        if (v['key'], v['clause']) in seen_v:
+            continue
+        seen_v.add((v['key'], v['clause']))
         inp = None
         if v['leg'] == 'kani':
             inp = v.get('cex')
